@@ -15,6 +15,9 @@ func setCollisionLimit(l uint32) { atree.VerifSetMaxCollisionLimitPerDigest(l) }
 // RunOracles evaluates the state oracles named in spec.Oracles on w.  w is a throw-away world:
 // the oracles may commit, reopen and load slabs.  Order: non-perturbing first.
 func RunOracles(w *World, spec Spec) error {
+	if w.FormerOnly != nil {
+		return OFormerParent(w, w.FormerOnly)
+	}
 	if spec.Has("healthx") {
 		return OHealthExact(w)
 	}
@@ -911,4 +914,70 @@ func OHealth(w *World) error {
 // remaining oracles tolerate (they commit themselves).
 func injectOnCopy(w *World, keys []int) error {
 	return OInject(w, keys)
+}
+
+// OFormerParent: after a mutation through a stale handle, the former parent's content, structure
+// and persisted form are what its model says (C11).  Nothing else is judged: the container that
+// was mutated through two different handles is outside the claims.
+func OFormerParent(w *World, fp *Cont) error {
+	root := fp
+	for root.Parent != nil {
+		root = root.Parent
+	}
+	if root.Dead {
+		return nil
+	}
+	if err := w.EnsureHandle(root); err != nil {
+		return err
+	}
+	check := func(ww *World, r *Cont, when string) error {
+		var err error
+		if r.IsMap {
+			err = ww.CmpMap(r.Map, r)
+		} else {
+			err = ww.CmpArray(r.Arr, r)
+		}
+		if err != nil {
+			return wrapViol(err, "former parent changed by a mutation through a stale handle ("+when+"): ")
+		}
+		ti := ww.typeInfo(r.TypeID, r.Comp)
+		if r.IsMap {
+			err = atree.VerifyMap(r.Map, r.SID.Address(), ti, CompareTypeInfo, tu.GetHashInput, true)
+		} else {
+			err = atree.VerifyArray(r.Arr, r.SID.Address(), ti, CompareTypeInfo, tu.GetHashInput, true)
+		}
+		if err != nil {
+			return violf("former parent's bookkeeping changed by a mutation through a stale handle (%s): %v", when, err)
+		}
+		return nil
+	}
+	if err := check(w, root, "in memory"); err != nil {
+		return err
+	}
+	// persisted form: encode only the slabs reachable from the former parent's root
+	wk := w.DoWalk()
+	tmp := NewLedger()
+	for _, r := range wk.Recs {
+		if r.Root != root.Serial {
+			continue
+		}
+		b, err := atree.EncodeSlab(r.Slab, encMode)
+		if err != nil {
+			return violf("former parent: slab %s does not encode after a stale-handle mutation: %v", r.ID, err)
+		}
+		tmp.Regs[r.ID] = b
+	}
+	rec := &World{T: w.T, Ledger: tmp, Addr: w.Addr, Digests: w.Digests, KeyOf: w.KeyOf, KeyUniverse: w.KeyUniverse}
+	rec.St = NewStorage(tmp)
+	rec.Conts = cloneConts(w.Conts)
+	var rroot *Cont
+	for _, c := range rec.Conts {
+		if c.Serial == root.Serial {
+			rroot = c
+		}
+	}
+	if err := rec.EnsureHandle(rroot); err != nil {
+		return wrapViol(err, "former parent (persisted form): ")
+	}
+	return check(rec, rroot, "persisted form")
 }
